@@ -6,40 +6,40 @@
 /// Check for `assertion`: ""tensor == must hold exactly when shape and elements agree""
 
 #[test]
-fn kani_concrete_playback_c19_eq_d3_3838337397395249465() {
+fn kani_concrete_playback_c19_eq_d3_819388357828645230() {
     let concrete_vals: Vec<Vec<u8>> = vec![
-        // 2ul
-        vec![2, 0, 0, 0, 0, 0, 0, 0],
+        // 1ul
+        vec![1, 0, 0, 0, 0, 0, 0, 0],
         // 1ul
         vec![1, 0, 0, 0, 0, 0, 0, 0],
         // 2ul
         vec![2, 0, 0, 0, 0, 0, 0, 0],
+        // 2ul
+        vec![2, 0, 0, 0, 0, 0, 0, 0],
         // 1ul
         vec![1, 0, 0, 0, 0, 0, 0, 0],
-        // 2ul
-        vec![2, 0, 0, 0, 0, 0, 0, 0],
-        // 2ul
-        vec![2, 0, 0, 0, 0, 0, 0, 0],
-        // 252
-        vec![252],
-        // 128
-        vec![128],
+        // 1ul
+        vec![1, 0, 0, 0, 0, 0, 0, 0],
+        // 192
+        vec![192],
         // 255
         vec![255],
+        // 0
+        vec![0],
+        // 0
+        vec![0],
+        // 0
+        vec![0],
+        // 0
+        vec![0],
+        // 0
+        vec![0],
+        // 0
+        vec![0],
+        // 192
+        vec![192],
         // 255
         vec![255],
-        // 255
-        vec![255],
-        // 255
-        vec![255],
-        // 255
-        vec![255],
-        // 255
-        vec![255],
-        // 252
-        vec![252],
-        // 128
-        vec![128],
         // 255
         vec![255],
         // 255
